@@ -162,7 +162,7 @@ def c17_probes(U, rng, per_def=4):
     non-zero-copy type, drop repr(C), add deep_copy}"""
     probes = []
     bases = [U.defs[k] for k in U.order if U.defs[k].copy == "zero" and not getattr(U.defs[k], "liar", False)
-             and not U.defs[k].module and not any(has_liar(U, te) for (_, te) in all_fields(U.defs[k]))]
+             and not U.defs[k].tparams and not U.defs[k].module and not any(has_liar(U, te) for (_, te) in all_fields(U.defs[k]))]
     hb = hand_bases()
     for d in hb:
         U.add(d)
@@ -267,6 +267,12 @@ C05_PROBES = [
     ("g_zero_generic", "compiles", None, "zero-copy struct with a type parameter bounded by ZeroCopy",
      "#[derive(Epserde, Debug, Clone, Copy, PartialEq)]\n#[repr(C)]\n#[zero_copy]\npub struct Z<A: ZeroCopy> { pub a: A, pub n: u8 }",
      rt("self::Z<u32>", "self::Z { a: 7u32, n: 3 }")),
+    ("g_zero_generic_args", "compiles", "D20", "zero-copy struct and enum with ZeroCopy-bounded parameters instantiated with arrays, tuples and zero-copy structs",
+     "#[derive(Epserde, Debug, Clone, Copy, PartialEq)]\n#[repr(C)]\n#[zero_copy]\npub struct Z<A: ZeroCopy, B: ZeroCopy>(pub A, pub u8, pub B);\n"
+     "#[derive(Epserde, Debug, Clone, Copy, PartialEq)]\n#[repr(C)]\n#[zero_copy]\npub enum E<A: ZeroCopy> { U, T(A, u8), S { x: u16, a: A } }",
+     "{ let v = vec![self::E::T(self::Z([1u32, 2], 1, (3u16, 4u16)), 1), self::E::U]; let mut c = <AlignedCursor<maligned::A16>>::new(); v.serialize(&mut c).unwrap(); c.set_position(0); "
+     "let f = <Vec<self::E<self::Z<[u32; 2], (u16, u16)>>>>::deserialize_full(&mut c).unwrap(); let e = <Vec<self::E<self::Z<[u32; 2], (u16, u16)>>>>::deserialize_eps(c.as_bytes()).unwrap(); "
+     "format!(\"full={} eps={}\", f == v, e == &v[..]) }"),
     ("g_unit_struct", "compiles", None, "unit struct", "#[derive(Epserde, Debug, Clone, PartialEq)]\npub struct S;", rt("self::S", "self::S")),
     ("g_two_bare", "compiles", None, "two parameters, both types of fields, one twice",
      "#[derive(Epserde, Debug, Clone, PartialEq)]\npub struct S<A, B> { pub a: A, pub b: B, pub a2: A }",
